@@ -85,6 +85,28 @@ class SStr:
     def startswith(self, p):
         return self._match_at(0, self._cps(p))
 
+    def endswith(self, p):
+        pat = self._cps(p)
+        return len(pat) <= len(self.v) and self._match_at(len(self.v) - len(pat), pat)
+
+    def __contains__(self, x):
+        pat = self._cps(x)
+        if pat is None:
+            raise TypeError("'in <string>' requires string as left operand")
+        if not pat:
+            return True
+        for pos in range(len(self.v) - len(pat) + 1):
+            if self._match_at(pos, pat):
+                return True
+        return False
+
+    def find(self, x, start=0):
+        pat = self._cps(x)
+        for pos in range(start, len(self.v) - len(pat) + 1):
+            if self._match_at(pos, pat):
+                return pos
+        return -1
+
     def replace(self, old, new, count=-1):
         old, new = self._cps(old), self._cps(new)
         if not old:
